@@ -349,6 +349,10 @@ def body_dataset(ctx, kind):
         lonb[~wet] = numpy.nan
         latb[~wet] = numpy.nan
         ds = builders.cf2d(ny, nx, lat=lat, lon=lon, lat_bounds=latb, lon_bounds=lonb)
+    elif kind == 'cf1d-int':
+        # whole-degree coordinates stored in integer types, odd spacings (cell edges are half-way values)
+        ds = builders.cf1d(2, 3, lat=numpy.array([[-12, -9], [10, 11], [0, 3], [-1, 0]][which], dtype=['int32', 'int64', 'int16', 'int8'][which]),
+                           lon=numpy.array([146, 149, 150], dtype='int64'))
     else:
         ds = builders.cf1d(2 + which % 2, 3)
     if kind == 'cf2d-dart':
@@ -417,7 +421,7 @@ def cases(tier):
         for reverse in (False, True):
             yield Case(f'ears:n{n}:{"rev" if reverse else "fwd"}', body_ears, dict(n=n, reverse=reverse), patches=_tri_patches,
                        max_paths=50000, split=16)
-    for kind in ('mesh', 'mesh-small', 'mesh-attr', 'cf2d', 'cf2d-dart', 'shoc_standard', 'cf1d', 'sparse8') + (() if q else ('sparse16',)):
+    for kind in ('mesh', 'mesh-small', 'mesh-attr', 'cf2d', 'cf2d-dart', 'shoc_standard', 'cf1d', 'cf1d-int', 'sparse8') + (() if q else ('sparse16',)):
         yield Case(f'dataset:{kind}', body_dataset, dict(kind=kind), max_paths=20)
 
 
